@@ -95,14 +95,12 @@ def check(ctx):
 
     # ---- R04-e visibility definition ---------------------------------------------------------------------------------
     vis = ctx.fn("CancelScope._parent_cancellation_is_visible_to_us", A)
-    rets = [n for n in own_walk(vis.node) if isinstance(n, ast.Return)]
-    ok = False
-    if len(rets) == 1 and isinstance(rets[0].value, ast.BoolOp) and isinstance(rets[0].value.op, ast.And):
-        conj = {F(ast.unparse(v)) for v in rets[0].value.values}
-        ok = conj in ({F("self._parent_scope is not None"), F("not self.shield"), F("self._parent_scope._effectively_cancelled")},
-                      {F("self._parent_scope is not None"), F("not self._shield"), F("self._parent_scope._effectively_cancelled")})
-    ctx.ob("R04-e", vis, "visible parent cancellation = has parent and not shielded and parent effectively cancelled", ok,
-           detail="" if ok else "the visibility predicate is not the conjunction of its three conjuncts", by=("3 conjuncts",))
+    from .common import truth_table
+    truth_table(ctx, "R04-e", vis, {"parent": ["self._parent_scope is not None"], "shield": ["self.shield", "self._shield"],
+                                    "parent_cancelled": ["self._parent_scope._effectively_cancelled"]},
+                # without a parent the third atom cannot even be evaluated: the answer must be False whatever it is
+                lambda v: v["parent"] and not v["shield"] and v["parent_cancelled"],
+                "visible parent cancellation = has parent and not shielded and parent effectively cancelled")
     eff = ctx.fn("CancelScope._effectively_cancelled", A)
     starts = ctx.sites(eff, "$V = self")
     ctx.ob("R04-e", eff, "effective cancellation starts at the scope itself", len(starts) == 1, detail="" if starts else "the walk does not start at self",
